@@ -411,3 +411,114 @@ class CutStream:
                 break
         self.p += len(out)
         return bytes(out)
+
+
+# ---------------------------------------------------------------------------------------
+# C19: channel files
+# ---------------------------------------------------------------------------------------
+
+class ScriptedChannel:
+    """receive() contract of a channel whose peer sent `items` and closed: the items in order,
+    then EOFError on every further call (C03 establishes this contract for the real Channel)."""
+
+    id = 1
+
+    def __init__(self, items):
+        self.items = list(items)
+        self.closed = False
+        self.receives = 0
+
+    def receive(self, timeout=None):
+        self.receives += 1
+        if self.items:
+            return self.items.pop(0)
+        raise EOFError()
+
+    def close(self, error=None):
+        self.closed = True
+
+    def isclosed(self):
+        return self.closed
+
+
+class RefFile:
+    """A file over `data` (str or bytes): position + slice/find - the C19 reference."""
+
+    def __init__(self, data, newline):
+        self.d, self.p, self.nl = data, 0, newline
+
+    def read(self, n):
+        r = self.d[self.p : self.p + n]
+        self.p += len(r)
+        return r
+
+    def readline(self):
+        i = self.d.find(self.nl, self.p)
+        end = len(self.d) if i == -1 else i + 1
+        r = self.d[self.p : end]
+        self.p = end
+        return r
+
+
+def same_read(a, b) -> bool:
+    """equal results; at end of data any empty result counts as empty ('' vs b'')."""
+    if len(b) == 0:
+        return len(a) == 0
+    return type(a) is type(b) and a == b
+
+
+def channelfile_read_matches(items, ops, binary: bool, proxyclose: bool) -> bool:
+    """ops: list of ("read", n) / ("readline",).  Real ChannelFileRead vs RefFile, call by call."""
+    empty = b"" if binary else ""
+    data = empty
+    for it in items:
+        data = data + it
+    ch = ScriptedChannel(items)
+    f = gb.Channel.makefile(ch, "r", proxyclose=proxyclose)
+    if type(f) is not gb.ChannelFileRead:
+        return False
+    ref = RefFile(data, b"\n" if binary else "\n")
+    for op in ops:
+        if op[0] == "read":
+            got, want = f.read(op[1]), ref.read(op[1])
+        else:
+            got, want = f.readline(), ref.readline()
+        if not same_read(got, want):
+            return False
+    # drain, then: empty results once the channel has ended, again and again
+    if not same_read(f.read(64), ref.read(64)):
+        return False
+    for _ in range(2):
+        if len(f.read(1)) != 0 or len(f.readline()) != 0 or len(f.read(0)) != 0:
+            return False
+    return ch.closed == proxyclose  # close() at EOF closes the channel only if proxyclose
+
+
+def channelfile_write_ok(x, proxyclose: bool, close_first: bool) -> bool:
+    gw = RecordingGateway()
+    ch = gw._channelfactory.new()
+    f = ch.makefile("w", proxyclose=proxyclose)
+    if type(f) is not gb.ChannelFileWrite or f.isatty():
+        return False
+    if close_first:
+        ch.close()
+        n = len(gw.sent)
+        try:
+            f.write(x)
+        except OSError:
+            return len(gw.sent) == n
+        return False
+    f.write(x)
+    f.flush()
+    if len(gw.sent) != 1:
+        return False
+    code, cid, data = gw.sent[0]
+    if code != gb.Message.CHANNEL_DATA or cid != ch.id or not teq(ch_loads(gb.loads_internal, data), x):
+        return False
+    f.write(x)
+    if len(gw.sent) != 2:   # one item per write
+        return False
+    f.close()
+    if proxyclose:
+        return ch.isclosed() and len(gw.sent) == 3 and gw.sent[2][0] == gb.Message.CHANNEL_CLOSE
+    return (not ch.isclosed()) and len(gw.sent) == 2
